@@ -208,14 +208,14 @@ theorem okAll3_atomsOk (c : Cmd) : ∀ (occs : List C02.Occ3) (pc : Nat), C02.ok
     atomsOk c (occs.flatMap C02.Occ3.atoms) pc
   | [], _, _ => trivial
   | .long o :: rest, pc, h => by
-    obtain ⟨⟨⟨_, _, _, a, hget, _⟩, _⟩, hr⟩ := h
+    obtain ⟨⟨⟨_, _, _, _, a, hget, _⟩, _⟩, hr⟩ := h
     simp only [C02.SOcc.toL] at hget
     exact ⟨by rw [hget]; rfl, okAll3_atomsOk c rest pc hr⟩
   | .pos v :: rest, pc, h => by
-    obtain ⟨_, hs, hr⟩ := h
+    obtain ⟨_, _, hs, hr⟩ := h
     exact ⟨hs, okAll3_atomsOk c rest (pc + 1) hr⟩
   | .cluster o :: rest, pc, h => by
-    obtain ⟨⟨_, hflags, hopt⟩, hr⟩ := h
+    obtain ⟨⟨_, _, hflags, hopt⟩, hr⟩ := h
     rw [List.flatMap_cons]
     refine atomsOk_append_noPos c _ _ pc ?_ (okAll3_atomsOk c rest pc hr)
     intro x hx
@@ -240,12 +240,12 @@ of its values is outside the value parser's language, it repeats a `Set`-like ar
 is a help / version flag. In particular a well-formed line is never answered `unknown argument`, `invalid
 subcommand` or `no equals`, and if every occurrence passes these checks the line is accepted -/
 theorem wellformed_rejection_justified (c : Cmd) (wf : C01.WF c) (sp : C02.SimplePos c) (pp : C02.PlainPos c)
-    (similar : Bytes → Bytes → Bool) (hsubs : c.subs = []) (occs : List C02.Occ3) (ls : LoopSt) (p : P)
+    (similar : Bytes → Bytes → Bool) (occs : List C02.Occ3) (ls : LoopSt) (p : P)
     (hok : C02.okAll3 c occs ls.posCounter) (htr : ls.trailing = false) (hst : ls.st = .valuesDone)
     (hfss : p.flagSubSkip = 0) (hpn : p.pending = none) (e : EK)
     (h : C02.obs c (loop c similar ls (occs.flatMap C02.Occ3.spell) p) = .error e) :
     ∃ (a : Arg) (vals : List Bytes) (p' : P), a ∈ c.args ∧ Reason c .cmdline a vals p' e := by
-  rw [C02.loop_clusters c wf sp pp similar hsubs occs ls p hok htr hst hfss, C02.resolvePending_none c p hpn] at h
+  rw [C02.loop_clusters c wf sp pp similar occs ls p hok htr hst hfss, C02.resolvePending_none c p hpn] at h
   simp only at h
   have h2 : (C02.runAtoms c (occs.flatMap C02.Occ3.atoms) ls.posCounter p).2 = .error e := by
     cases hr : C02.runAtoms c (occs.flatMap C02.Occ3.atoms) ls.posCounter p with
